@@ -12,32 +12,77 @@ open Lean Glom Glom.Mut Glom.C11 Glom.C12 Glom.C11.Driver
 def run (j : Json) : Except String Json := do
   let c ← commonOfJson j
   let ignore ← j.getObjValAs? Bool "ignore_missing"
-  let implObs ← obsOfJson (← j.getObjVal? "impl")
+  let implJ ← j.getObjVal? "impl"
+  let implObs ← obsOfJson implJ
+  let rd : Option (List Step) ← (match ← j.getObjVal? "readback" with
+    | .null => pure none
+    | r => do pure (some (← stepsOfSpelling (← r.getObjVal? "spelling")))
+    : Except String (Option (List Step)))
+  let implRead : Option ReadObs ← (match ← implJ.getObjVal? "read" with
+    | .null => pure none
+    | r => do pure (some (← readObsOfJson r))
+    : Except String (Option ReadObs))
+  let scopeKept ← implJ.getObjValAs? Bool "scope_kept"
   let root := if c.sroot then c.sref else c.target
   -- `Delete.__init__`: the path it keeps (first step of an S-rooted path re-spelled per the extracted
   -- table); the prescription follows the path as it is read (`S.a` ≡ `S['a']`)
+  let hasSS := c.steps.any (fun st => st.1 == "X")
+  if !(intSafe c.steps && (match rd with | some rs => intSafe rs | none => true)) || hasSS then
+    -- CPython's int() is not the kernel's on these segments: only what needs no int() is checked
+    let weak := match implObs.res with
+      | .ok v => v == c.target
+      | .err .. => hasStar c.steps || implObs.heap == c.heap
+    return Json.mkObj [("agree", true), ("holds", weak), ("model_holds", true), ("wf", C12.WF c.env),
+      ("covered", false), ("model", Json.null), ("ref", if hasSS then "starstar" else "int-unsafe"),
+      ("branch", if hasSS then "`**` path (enumeration is C14's): same object only"
+                 else "int() outside the modelled subset: same object / atomicity only")]
   let kept := initPath (genSFirst "Delete") c.sroot c.steps
   let refSteps := readSteps c.sroot c.steps
-  let out := delete c.env c.sroot c.sref ignore c.heap c.target kept
+  let (out, rdOut) := match rd with
+    | some rs => deleteThenRead c.env c.sroot c.sref ignore c.heap c.target kept rs
+    | none => (delete c.env c.sroot c.sref ignore c.heap c.target kept, none)
   let modelObs := C12.observe c.env out
-  let ref := refDelete c.env c.heap root refSteps ignore
-  if ref == .unsupported || (match out.2 with | .error .unmodelled => true | _ => false) then
+  let modelRead := observeRead c.env rdOut
+  let ref := refDelete c.refEnv c.heap root refSteps ignore
+  if ref == .unsupported || (match out.2 with | .error .unmodelled => true | _ => false) ||
+      (match rdOut with | some (.error .unmodelled) => true | _ => false) then
     return Json.mkObj [("skip", true), ("why", "path outside the modelled domain (`**`)")]
-  let agree := modelObs == implObs
-  let holds := checkC12 c.env c.heap c.target root refSteps ignore implObs
-  let modelHolds := checkC12 c.env c.heap c.target root refSteps ignore modelObs
+  let readAgree := match rd, implRead with
+    | some _, some r => modelObs.hidden || ReadObs.beq modelRead r
+    | none, none => true
+    | _, _ => false
+  let readHolds := match rd, implRead with
+    | some rs, some r => checkReadDel c.refEnv c.heap root refSteps ignore (readSteps c.sroot rs) implObs.heap r
+    | none, none => true
+    | _, _ => false
+  let agree := modelObs == implObs && readAgree
+  let holds := checkC12 c.refEnv c.heap c.target root refSteps ignore implObs && readHolds && scopeKept
+  let modelHolds := checkC12 c.refEnv c.heap c.target root refSteps ignore modelObs &&
+    (match rd with
+     | some rs => checkReadDel c.refEnv c.heap root refSteps ignore (readSteps c.sroot rs) modelObs.heap modelRead
+     | none => true)
   let star := hasStar c.steps
   let cov := C12.covered c.env c.steps
-  let covStar := star && C12.WF c.env && classesOK c.env && noScope c.env && wfStar c.steps
+  -- `c12_star` / `c12_star_model_checks`: T-rooted, `*` only, the matches of the parent path exist
+  let covStar := star && !c.sroot && C12.WF c.env && classesOK c.env && noScope c.env && wfStar c.steps &&
+    intSafe c.steps && (match c.steps.getLast? with | some (lop, _) => finalOk lop | none => false) &&
+    (match matchesOf c.env c.heap c.steps.dropLast 0 c.target with | .ok _ => true | _ => false)
   let refTag := match ref with
     | .ok .. => "del" | .missingFinal e => s!"missing-final({e.cls})" | .missingParent .. => "missing-parent"
-    | .fault => "fault" | .partialFail => "partial" | .unsupported => "unsupported"
-  let branch := (if c.sroot then "S:" else "") ++ (if c.hasUreg then "user-reg:" else "") ++
+    | .fault s => (if s then "fault(handler)" else "fault") | .partialFail .. => "partial" | .unsupported => "unsupported"
+  let rdTag := match rd with
+    | none => ""
+    | some _ => (match modelRead with
+      | .notRun => "read-notrun:" | .ok _ => "read-ok:" | .err e => s!"read-{resTag e}:")
+  let branch := (if c.sroot then "S:" else "") ++ rdTag ++ (if c.hasUreg then "user-reg:" else "") ++
     (if star then "star:" else "") ++
     (if ignore then "ignore:" else "") ++ refTag ++ "→" ++ resTag modelObs.res ++
     (if cov then " [thm]" else if covStar then " [thm*]" else "")
   return Json.mkObj [("agree", agree), ("holds", holds), ("model_holds", modelHolds),
     ("wf", C12.WF c.env), ("covered", cov || covStar), ("model", obsToJson modelObs),
+    ("model_read", readObsToJson modelRead),
+    ("why", if !scopeKept then "the mapping handed to glom(scope=…) was changed"
+            else if !readHolds then "the read-back step does not see what Python's del leaves" else ""),
     ("ref", refTag), ("branch", branch)]
 
 end Glom.C12.Driver
